@@ -112,7 +112,7 @@ func runReaderLevel(rng *hlib.Rand, h hostile, o *caseOut, chunks []rac.Chunk, d
 	cra := &countingRA{data: h.data}
 	// one Read(p) makes at most len(p) NextChunk calls (Props/C15Bytes read_work), each
 	// within the ChunkReader budget, plus one MakeDecompressor read per chunk
-	perFetch := readBudget(len(h.data), h.claimed) + 4
+	perFetch := readBudget(h.data, h.claimed) + 4
 	r := &rac.Reader{ReadSeeker: cra, CompressedSize: h.claimed, CodecReaders: []rac.CodecReader{toyCodecReader{}}}
 
 	seen := map[int64]byte{} // DSpace position -> the byte some Read returned for it
